@@ -269,7 +269,9 @@ def harness(eng, fam, P):
             if slot in ('versions', 'versions-nonjson'):
                 api = 'build_versioned'
             if slot.endswith('build_name'):
-                name = 5
+                # not a string (falsy values included: they must not be mistaken for "unknown build name")
+                name = [5, 0, False, b'', [], {}, 0.0][eng.choose('badname', 7)]
+                what = '%s=%r' % (slot, name)
             elif slot == 'func':
                 fn = 'not callable'
             elif slot.endswith('cache_filename'):
@@ -279,8 +281,8 @@ def harness(eng, fam, P):
             elif slot == 'versions-nonjson':
                 versions = {'f': object()}
         elif fam == 'name':
-            name = 'another-build'
-            what = 'name'
+            name = ['another-build', '', 'N'][eng.choose('othername', 3)]
+            what = 'name=%r' % name
         elif fam == 'cache-dir':
             w.ext_remove(w.cache)
             w.ext_mkdir(w.cache)
